@@ -101,9 +101,7 @@ class _Shim:
         return self._like(a, dtype, 1)
 
     def full_like(self, a, fill_value, dtype=None, **kw):
-        r = _np.empty(_np.shape(_obj(a) if has_sym(a) else a), dtype=object)
-        r.fill(fill_value)
-        return r
+        return _falloc(_np.shape(_obj(a) if has_sym(a) else a), fill_value)
 
     def array(self, obj, *a, **kw):
         if has_sym(obj):
